@@ -749,16 +749,19 @@ func lemmaTypedGettersAgreeOnFound(st *SlimTrie, key string) (bool, bool, bool, 
 // (a step is stored in 16 bits of 4-bit words whatever the node's word size).
 //@ func (*creator).addInner
 //@   property C08 C12 C13
-//@   opt kinds=pre(setPrefix),frame
+//@   opt kinds=pre(setPrefix),frame,post
 //@   requires c != nil && c.option != nil && c.option.InnerPrefix != nil && prefixBitFrom <= prefixBitTo
 //@   requires !*c.option.InnerPrefix ==> (prefixBitTo - prefixBitFrom)/4 <= 65535
 //@   modifies c.nodeCnt, c.bigCnt, c.innerIndexes, c.innerSizes, c.innerBMs, elems(c.innerIndexes), elems(c.innerSizes), elems(c.innerBMs), maps
 //@   modifies c.prefixIndexes, c.prefixByteLens, c.prefixes, c.prefix4BitLens, elems(c.prefixIndexes), elems(c.prefixByteLens), elems(c.prefixes), elems(c.prefix4BitLens)
+//@   ensures c.option == old(c.option)
+//@   ensures !*c.option.InnerPrefix ==> len(c.prefix4BitLens) - 2*len(c.prefixIndexes) == old(len(c.prefix4BitLens) - 2*len(c.prefixIndexes))
 
 //@ func newCreator
 //@   property C08 C12
 //@   opt kinds=post
 //@   ensures result != nil && result.option == opt && fresh(result)
+//@   ensures len(result.prefixIndexes) == 0 && len(result.prefix4BitLens) == 0
 
 // bitmap wrappers: the rank / select index built over the words is the one the query side relies on (wf_r64 / wf_r128 / wf_sel)
 //@ func (*Bitmap).indexit
@@ -840,6 +843,7 @@ func lemmaTypedGettersAgreeOnFound(st *SlimTrie, key string) (bool, bool, bool, 
 //@   property C08
 //@   opt kinds=post
 //@   requires c != nil && c.option != nil && c.option.InnerPrefix != nil && c.option.LeafPrefix != nil
+//@   ensures !*c.option.InnerPrefix && len(c.prefix4BitLens) == 2*len(c.prefixIndexes) && len(c.prefixIndexes) <= 1000000000 ==> len(result.InnerPrefixes.Bytes) == 2*int(result.InnerPrefixes.EltCnt)
 //@   modifies elems(c.innerBMs), elems(c.innerSizes), maps
 //@   loop 1 invariant ns != nil && fresh(ns) && ns.BigInnerCnt == c.bigCnt && 0 <= ns.ShortSize && ns.ShortSize <= 10
 //@   loop 1 invariant 0 <= short && int(short) <= pow2(int(ns.ShortSize)) && len(ns.ShortTable) == int(short)
@@ -901,9 +905,11 @@ func lemmaTypedGettersAgreeOnFound(st *SlimTrie, key string) (bool, bool, bool, 
 //@   ensures result1 == nil && len(keys) > 0 ==> wf_shape(result0)
 //@   ensures result1 == nil ==> result0 != nil
 //@   ensures result1 != nil ==> result0 == nil
+//@   ensures result1 == nil && len(keys) > 0 && !*opt.InnerPrefix ==> len(result0.InnerPrefixes.Bytes) == 2*int(result0.InnerPrefixes.EltCnt)
 //@   requires opt != nil && opt.InnerPrefix != nil && opt.DedupValue != nil && opt.LeafPrefix != nil
 //@   requires len(keys) <= 100000000 && (bytesValues == nil || len(bytesValues) == len(keys))
 //@   loop 2 invariant c != nil && c.option == opt && opt.InnerPrefix != nil
+//@   loop 2 invariant !*opt.InnerPrefix ==> len(c.prefix4BitLens) == 2*len(c.prefixIndexes)
 
 //@ func (*creator).addLeafIndex
 //@   property C13 C17 C08
